@@ -165,6 +165,13 @@ pub fn cases(thorough: bool) -> Vec<Case> {
             }
         }
     }
+    // long streams (more blocks than the hashing queue of the multi-thread mode holds), every block different
+    for &(ch, bps, bs) in &[(1u8, 8u8, 32u32), (2, 16, 32), (2, 24, 64), (8, 12, 32)] {
+        v.push(Case {
+            input: Input { ch, bps, rate: 44100, bs, full: 150, tail: 9, atoms: [19, 19, 19, 19], rel: 0, delivery: 0, seed: 0 },
+            cfg: Cfg::default(),
+        });
+    }
     for &rate in universe::RATES.iter() {
         for &bps in universe::BPS.iter() {
             v.push(Case {
@@ -202,7 +209,7 @@ pub fn run(args: &Args, rep: &Arc<Report>) {
                     rep.sample(c.json());
                 }
                 // quick: all worker counts for the stereo and 8-channel cases, one worker count otherwise
-                let w: &[u8] = if thorough || c.input.ch == 2 || c.input.ch == 8 { workers } else { &[2] };
+                let w: &[u8] = if c.input.full >= 100 { &[2, 16, 64] } else if thorough || c.input.ch == 2 || c.input.ch == 8 { workers } else { &[2] };
                 check_case(rep, c, local, w);
             }
         },
